@@ -34,9 +34,10 @@ GEN_ALL = "INVARIANTS WeightInv WeighInv BoundsInv\nCHECK_DEADLOCK FALSE"     # 
 RR_CFG = """SPECIFICATION GenSpec
 CONSTANTS
   Rings <- MCRings
+  Starts <- MCStarts
   MaxSteps = %d
   PatLen = %d
-INVARIANTS PerRouteCycle Periodic OnlyMembers
+INVARIANTS PerRouteCycle Periodic PeriodicAtAnyCount OnlyMembers
 CHECK_DEADLOCK FALSE
 """
 WORKERS = 8
@@ -70,6 +71,7 @@ def run(ctx):
         "round robin is observed through behaviour only: two ring lengths of consecutive lookups from a seed-chosen cursor position; the first ring length and a later window must each hit target i exactly as often as it occupies the ring, and lookup j and j+len(ring) must agree; the ring share of a target is accepted when it is exact (count/len = weight) or within the slot bounds floor(10^4 w)-1 .. ceil(10^4 w), at least one slot iff w > 0",
         "`route weight` with w <= 0 removes the fixed weight (documented: 'w <= 0 means no fixed weighting'); the expected split is that of the configuration after the LAST command of the script (scripts with weight > 0 then weight 0 / negative are cases of their own)",
         "several routes in one table (same path on different hosts, ':port' routes): lookups are interleaved following every schedule of up to 4 (thorough 5) steps over 3 routes, repeated until every route has seen two ring lengths; each route's own consecutive lookups must form exact cycles and be periodic with its ring length",
+        "long histories: the cursor is a natural number (WeightsRR!PeriodicAtAnyCount); an OPTIONAL probe positions the real counter (uint64 field 'total' of Route, found by reflection; skipped and counted when absent) a few lookups below 2^32, 2^32+2^31 and 2^63 and requires the next three ring lengths of lookups to form exact cycles and be periodic; the wrap of the 64-bit counter itself (2^64 lookups) is outside the claim",
         "random picker: the statistical share is not checked; with the random source replaced by a counter every ring index is drawn once and the picks must be exactly the ring's members",
         "the ring-filling loop is model-checked on rings of 12 and 30 slots (MaxSlots is a constant of the specification, 10 000 in fabio); the real 10 000-slot ring is bound through its observable properties (no empty slot, occupancy, cursor order)",
     ]
@@ -129,6 +131,9 @@ def run(ctx):
     s = r.summary
     ctx.log("replayed %d vectors (%d through route weight, %d with a reset as last command): %d weights, %d ring shares, %d rr picks, %d rnd picks, %d failed, %.0fs"
             % (s["cases"], s["via_weight_cmd"], s["reset_last"], s["weights"], s["cycles"], s["picks"], s["rnd_picks"], s["fails"], r.wall))
+    ctx.log("large-count probe (cursor positioned below 2^32, 2^32+2^31, 2^63 by reflection): %d routes probed, %d skipped (counter field not found)"
+            % (s["large_count_probes"], s["large_count_skipped"]))
+    ctx.cover("large-count", evaluations=0, probes=s["large_count_probes"], skipped=s["large_count_skipped"])
     if s["cases"] == 0 or s["picks"] == 0 or s["rnd_picks"] == 0 or s["via_weight_cmd"] == 0 or s["reset_last"] == 0:
         ctx.inconclusive("C04: vacuous replay (%s)" % json.dumps(s)[:300])
         return
@@ -139,7 +144,7 @@ def run(ctx):
 
     # 4b. several routes in one table, lookups interleaved as TLC's schedules prescribe
     sched = os.path.join(ctx.tmp, "c04.sched")
-    rrg = ctx.tlc("WeightsRR_MC", cfg_text=RR_CFG % (ctx.pick(8, 9), ctx.pick(4, 5)), workers=4, json_sink=sched, timeout=600)
+    rrg = ctx.tlc("WeightsRR_MC", cfg_text=RR_CFG % (ctx.pick(7, 8), ctx.pick(4, 5)), workers=4, json_sink=sched, timeout=600)
     ctx.log("MC+Gen round robin over 3 routes: %d generated, %d distinct, %.0fs" % (rrg.generated, rrg.distinct, rrg.wall))
     if not ctx.need_tlc_ok(rrg, "WeightsRR MC"):
         return
